@@ -166,14 +166,6 @@ func (in *Interp) RegisterCompiler(compile func(script string) ([]byte, error)) 
 	in.reg(compilerPkg+".Compile", func(th *Thread, fn *ssa.Function, a []Value) Value {
 		return do(th, th.str(a[0], "script text"))
 	})
-	in.reg("(*github.com/formancehq/ledger/internal/engine/command.Compiler).Compile", func(th *Thread, fn *ssa.Function, a []Value) Value {
-		th.stub("command.Compiler.Compile:cache-bypassed")
-		return do(th, th.str(a[1], "script text"))
-	})
-	in.reg("github.com/formancehq/ledger/internal/engine/command.NewCompiler", func(th *Thread, fn *ssa.Function, a []Value) Value {
-		t := in.resolveTypeName("github.com/formancehq/ledger/internal/engine/command.Compiler")
-		return ptrTo(in.zero(t))
-	})
 }
 
 var _ = fmt.Sprint
